@@ -110,11 +110,6 @@ class App(AV):
         return f"{self.op}({', '.join(map(repr, self.args))})"
 
 
-def _concrete(v):
-    """Constants and tuples/lists of constants: equality between two of them is decided."""
-    return isinstance(v, Const) or (isinstance(v, ListV) and all(_concrete(x) for x in v.items))
-
-
 class ListV(AV):
     __slots__ = ("items", "kind")
     __hash__ = AV.__hash__
@@ -1641,6 +1636,17 @@ class Interp:
             return True
         if isinstance(l, (ListV, DictV)) and isinstance(r, (ListV, DictV)) and _concrete(l) and _concrete(r):
             return _plain(l) == _plain(r)
+        if isinstance(l, ListV) and isinstance(r, ListV) and l.kind == r.kind and l.kind in ("list", "tuple"):
+            # sequences of known objects / constants: element-wise (objects of the scenario compare by identity)
+            if len(l.items) != len(r.items):
+                if all(isinstance(x, (Const, ObjV, ClassV, ListV)) for x in l.items + r.items):
+                    return False
+                return None
+            ds = [self.equal(a, b) for a, b in zip(l.items, r.items)]
+            if any(d is False for d in ds):
+                return False
+            if all(d is True for d in ds):
+                return True
         return None
 
     def member(self, l, r):
